@@ -232,6 +232,11 @@ def local_def_call(body, l):
     return None
 
 
+# adapters that map the success variant to the success variant and the failure variant to the failure variant
+VARIANT_PRESERVING = ("Result::map_err", "Result::map", "Option::map", "Option::ok_or", "Option::ok_or_else", "Result::ok",
+                      "Option::as_mut", "Option::as_ref", "Result::as_mut", "Result::as_ref")
+
+
 def result_arms(body, call_block):
     """For a call whose Option/Result/ControlFlow result is matched: returns list of
     (switch_block, ok_target, fail_target) over every discriminant switch on the call's destination (or a moved copy)."""
@@ -252,7 +257,8 @@ def result_arms(body, call_block):
                     changed = True
         # `?`: Try::branch maps Some/Ok to Continue and None/Err to Break - the arms of the branch result are the arms of the value
         for b, t2, fr in body.iter_calls():
-            if fr is not None and fn_name(fr).endswith("::Try>::branch") and t2["args"] and not t2["dest"]["p"]:
+            if fr is not None and (fn_name(fr).endswith("::Try>::branch") or tail(fn_name(fr), 2) in VARIANT_PRESERVING) \
+                    and t2["args"] and not t2["dest"]["p"]:
                 p = op_place(t2["args"][0])
                 if p and not p["p"] and p["l"] in locals_ and t2["dest"]["l"] not in locals_:
                     locals_.add(t2["dest"]["l"])
@@ -791,7 +797,25 @@ def true_return_requirements(body):
                 elif v == 0:
                     continue
                 else:
-                    return None
+                    # `_0 = move x` where x is the result of a comparison (an inlined predicate helper's return value)
+                    src = (rv["use"].get("move") or rv["use"].get("copy")) if "use" in rv else None
+                    seen = set()
+                    hit = None
+                    while src is not None and not src["p"] and src["l"] not in seen:
+                        seen.add(src["l"])
+                        hit = next((c for c in cmps if c[1]["dest"]["l"] == src["l"] and not c[1]["dest"]["p"]), None)
+                        if hit:
+                            break
+                        defs = [s2 for bb in body.reachable for s2 in body.blocks[bb]["stmts"]
+                                if s2["k"] == "assign" and s2["place"]["l"] == src["l"] and not s2["place"]["p"]]
+                        if len(defs) != 1 or "use" not in defs[0]["rv"]:
+                            break
+                        src = defs[0]["rv"]["use"].get("move") or defs[0]["rv"]["use"].get("copy")
+                    if not hit:
+                        return None
+                    req = dict(dom)
+                    req[hit[0]] = hit[3]
+                    out.append(req)
         t = blk["term"]
         if t["k"] == "call" and t["dest"]["l"] == 0 and not t["dest"]["p"]:
             hit = [c for c in cmps if c[0] == b]
@@ -852,4 +876,81 @@ def root_origins(prog, root, clo, op):
                 out.add(tuple(o2) + tuple(x for x in o[3:] if x != "*"))
         else:
             out.add(("closure-local",) + tuple(o))
+    return out
+
+
+def index_scans(body, is_coll):
+    """Index-scan loops with in-place removal over a collection accepted by is_coll(operand):
+
+        while pos < c.len() { let e = &c[pos]; if <match> { c.remove(pos); } else { pos += 1; } }
+
+    Returns [dict(header, region, index_block, remove_block, remove_name, keep_blocks, well_formed)]; well_formed means: the
+    loop is left only through a bound test that dominates the element read; `pos` is written in the loop only by `+ 1`;
+    every iteration does exactly one of REMOVE and ADVANCE (so every element is visited exactly once, none skipped)."""
+    out = []
+    for (h, lbody, backs) in body.loops():
+        calls = [(b, t, mir.strip_generics(fn_name(fr))) for b, t, fr in body.iter_calls(lbody) if fr and t["args"] and is_coll(t["args"][0])]
+        idx = [(b, t) for b, t, n in calls if tail(n, 1) in ("index", "index_mut")]
+        rem = [(b, t, n) for b, t, n in calls if tail(n, 1) in ("remove", "swap_remove", "swap_remove_back", "swap_remove_front")]
+        lens = [(b, t) for b, t, n in calls if tail(n, 1) == "len"]
+        if len(idx) != 1 or len(rem) != 1 or not lens or len(rem[0][1]["args"]) < 2:
+            continue
+
+        def pos_locals(op):
+            res = set()
+            p = op_place(op)
+            seen = set()
+            while p is not None and not p["p"] and p["l"] not in seen:
+                seen.add(p["l"])
+                res.add(p["l"])
+                ds = [d for d in body.defs.get(p["l"], []) if d[0] == "stmt" and "use" in d[3]]
+                p = op_place(ds[0][3]["use"]) if len(ds) == 1 else None
+            return res
+        pos = pos_locals(idx[0][1]["args"][1]) & pos_locals(rem[0][1]["args"][1])
+        posv = [l for l in pos if len([d for d in body.defs.get(l, []) if d[0] in ("stmt", "call")]) >= 2]
+        ok = len(posv) == 1
+        incs = []
+        if ok:
+            pv = posv[0]
+            for b, i, st in body.iter_stmts(lbody):
+                if st["k"] == "assign" and not st["place"]["p"] and st["place"]["l"] == pv:
+                    incs.append(b)
+                    rv = st["rv"]
+                    src = op_place(rv["use"]) if "use" in rv else None
+                    cand = [rv]
+                    if src is not None:
+                        cand += [d[3] for d in body.defs.get(src["l"], []) if d[0] == "stmt"]
+                    ok_inc = False
+                    for c in cand:
+                        if "bin" in c and c["bin"]["op"] in ("Add", "AddWithOverflow", "AddUnchecked"):
+                            l_, r_ = c["bin"]["l"], c["bin"]["r"]
+                            if (op_place(l_) or {}).get("l") in pos_locals({"copy": {"l": pv, "p": []}}) | {pv} and const_val(r_) == 1:
+                                ok_inc = True
+                    ok = ok and ok_inc
+        exits = {(x, s_) for x in lbody for s_ in body.succ[x] if s_ not in lbody}
+        cmp_ok = False
+        for (x, s_) in exits:
+            info = mir.switch_on(body, x)
+            if info and info.get("kind") == "bin" and info["bin"]["op"] in ("Lt", "Gt", "Ne"):
+                cmp_ok = True
+        ok = ok and len({x for x, _ in exits}) == 1 and cmp_ok and all(body.dominates(x, idx[0][0]) for x, _ in exits)
+        # exactly one of REMOVE / ADVANCE on every iteration path
+        if ok:
+            ev = {rem[0][0]} | set(incs)
+            counts = set()
+            seen = set()
+            st_ = [(h, 1 if h in ev else 0)]
+            while st_:
+                x, n = st_.pop()
+                if (x, n) in seen:
+                    continue
+                seen.add((x, n))
+                for s_ in body.succ[x]:
+                    if s_ == h:
+                        counts.add(n)
+                    elif s_ in lbody:
+                        st_.append((s_, min(3, n + (1 if s_ in ev else 0))))
+            ok = counts == {1}
+        out.append(dict(header=h, region=lbody, index_block=idx[0][0], remove_block=rem[0][0], remove_name=rem[0][2],
+                        keep_blocks=sorted(set(incs)), well_formed=ok))
     return out
